@@ -30,6 +30,14 @@ package utility
 
 //@ smt (define-fun pow10 ((d Int)) Int (ite (= d 0) 1 (ite (= d 1) 10 (ite (= d 2) 100 (ite (= d 3) 1000 (ite (= d 4) 10000 (ite (= d 5) 100000 (ite (= d 6) 1000000 (ite (= d 7) 10000000 (ite (= d 8) 100000000 (ite (= d 9) 1000000000 (ite (= d 10) 10000000000 (ite (= d 11) 100000000000 (ite (= d 12) 1000000000000 (ite (= d 13) 10000000000000 (ite (= d 14) 100000000000000 (ite (= d 15) 1000000000000000 (ite (= d 16) 10000000000000000 (ite (= d 17) 100000000000000000 1000000000000000000)))))))))))))))))))
 
+// Formatting: the string produced denotes exactly n / 10^precision (dv: rational value of a decimal numeral with
+// optional sign and point; digit-string theory in govc/lib.go). One verification per precision 0..18.
+//@ func bigIntToStr
+//@   property C18
+//@   option intmode=math cases=precision:0:18
+//@   ensures [value] n != nil ==> @dv(result) * real(@dpow10(precision)) == real(old(big(n)))
+//@   modifies nothing
+
 //@ func Uint64ToBigInt
 //@   property C18
 //@   option intmode=math
